@@ -429,6 +429,11 @@ impl PdfString {
             for &b in self.data.as_slice() {
                 match b {
                     b'\\' | b'(' | b')' => write!(out, r"\")?,
+                    b'\r' => {
+                        // a raw CR would be read back as an end-of-line marker (LF)
+                        write!(out, r"\r")?;
+                        continue;
+                    }
                     _ => ()
                 }
                 out.write_all(&[b])?;
